@@ -86,6 +86,7 @@ def run(cx):
     for lo in range(0, len(hists), step):
         process(cx, schemas, hists[lo:lo + step])
     when_family(cx)
+    case_npcont_family(cx)
 
 
 # ---- law-only family: defaults guarded by `when` (on the node, on its choice, on its case, on a non-presence container) ------------
@@ -222,6 +223,85 @@ def when_family(cx):
             if ap is not None and (ap, eq) != ("Success", "1"):
                 cx.fail(COMP, "the change set of a validation with `when`-guarded defaults is not exact (%s)" % ap, payload(h, "when-valdiff", vi))
                 break
+
+
+# ---- directed family: non-presence containers inside cases whose explicit content comes and goes ---------------------------------
+
+def case_npcont_schema(rng, idx):
+    S, T = tg.SNode, tg.Ty
+    st = T("string")
+    nm = [0]
+
+    def name(p):
+        nm[0] += 1
+        return "%s%d" % (p, nm[0])
+
+    def npcont(depth):
+        kids = [S("leaf", name("a"), ty=st)]                               # no default: the explicit content
+        for _ in range(rng.randrange(1, 3)):
+            kids.append(S("leaf", name("b"), ty=st, dflt=rng.choice([b"d", b"e"])))
+        if rng.random() < 0.3:
+            kids.append(S("leaflist", name("bl"), ty=st, dflts=[b"x", b"y"]))
+        if depth < 2 and rng.random() < 0.3:
+            kids.append(npcont(depth + 1))
+        if rng.random() < 0.3:
+            rng.shuffle(kids)                                               # mostly the default-less leaf is the FIRST child
+        return S("container", name("nc"), kids=kids)
+
+    ca_kids = [npcont(1)]
+    if rng.random() < 0.3:
+        ca_kids.insert(rng.randrange(2), S("leaf", name("s"), ty=st))
+    cases = [S("case", name("ca"), kids=ca_kids),
+             S("case", name("cb"), kids=[S("leaf", name("w"), ty=st, dflt=(b"dw" if rng.random() < 0.5 else None))])]
+    if rng.random() < 0.3:
+        cases.append(S("case", name("cc"), kids=[npcont(1)]))
+    ch = S("choice", name("ch"), kids=cases)
+    if rng.random() < 0.4:
+        ch.dflt = cases[1].name
+    top = S("container", "top", presence=True, kids=[S("leaf", name("p"), ty=st), ch])
+    return vg.XSchema("vc%02d" % idx, [top]), top
+
+
+def case_npcont_family(cx):
+    """Histories that give a non-presence container inside a case its explicit content, validate, take content away again
+    (first child / other child / all), validate: the container must go with its case in THAT validation; through the ordinary
+    pipeline (model + laws)."""
+    rng = cx.sub_rng("casenp")
+    schemas, hists = [], []
+    for i in range(cx.n(40, 200)):
+        s, top = case_npcont_schema(rng, i)
+        schemas.append(s)
+        conts = [n for n in s.nodes if n.kind == "container" and not n.presence and n.parent is not None and n.parent.kind == "case"]
+        for _ in range(cx.n(6, 16)):
+            nc = rng.choice(conts)
+            expl = [k for k in nc.kids if k.kind == "leaf" and k.dflt is None]
+            dfl = [k for k in nc.kids if k.kind == "leaf" and k.dflt is not None]
+            if not expl:
+                continue
+            a = expl[0]
+            kids = [tg.DN(a, b"v")]
+            extra = rng.random() < 0.3 and dfl
+            if extra:
+                kids.append(tg.DN(dfl[0], b"zz"))
+            kids.sort(key=lambda d: nc.kids.index(d.sn))
+            steps = ["C:-:%s" % tg.tok([tg.DN(top, None, [tg.DN(nc, None, kids)])]), "V"]
+            addr_nc = "%d/%d" % (top.sid, nc.sid)
+            order = [a] + ([dfl[0]] if extra else [])
+            rng.shuffle(order)
+            for k in order:
+                steps.append("D:%s/%d" % (addr_nc, k.sid))
+                if rng.random() < 0.6:
+                    steps.append("V")
+            if steps[-1] != "V":
+                steps.append("V")
+            if rng.random() < 0.4:
+                steps += ["C:%s:%s" % (addr_nc, tg.tok([tg.DN(a, b"again")])), "V"]
+            h = Hist(s, steps, [], [[] for _ in range(10)], 0)
+            hists.append(h)
+    base = 900000
+    for k, h in enumerate(hists):
+        h.k = base + k
+    process(cx, schemas, hists)
 
 
 def fields(reply):
